@@ -312,10 +312,20 @@ func runC17(r *Run) int {
 			c := decodeCase(lib.K3E, s, false)
 			c.Type = "report"
 			c.Args = map[string]string{"kept": "only the embedded lower-level report; the owner was dropped and garbage collections ran"}
-			for _, sub := range []lib.Report{{Level: 1, T: rep.E.TemporalReport}, {Level: 0, B: rep.E.TemporalReport.BaseReport}} {
-				snap, _ := sub.Flatten()
-				kept = append(kept, keptRep{sub, snap, c})
+			// keep exactly ONE embedded part (so that everything above it becomes unreachable)
+			sub := lib.Report{Level: 0, B: rep.E.TemporalReport.BaseReport}
+			switch rng.IntN(3) {
+			case 0:
+				sub = lib.Report{Level: 1, T: rep.E.TemporalReport}
+			case 1: // the base part of a temporal report built on its own
+				if tv, ok, _ := o.TemporalView(); ok && !tv.IsNil() {
+					if tr, pan := lib.NewReport(tv, tagOf(reportLangs[rng.IntN(3)]), true); pan == nil {
+						sub = lib.Report{Level: 0, B: tr.T.BaseReport}
+					}
+				}
 			}
+			snap, _ := sub.Flatten()
+			kept = append(kept, keptRep{sub, snap, c})
 		}
 		for i := 0; i < r.Pick(300, 3000); i++ {
 			mk()
@@ -323,7 +333,8 @@ func runC17(r *Run) int {
 		w := r.NewW()
 		for round := 0; round < 3; round++ {
 			runtime.GC()
-			time.Sleep(2 * time.Millisecond)
+			time.Sleep(5 * time.Millisecond) // finalizers run on their own goroutine
+			runtime.GC()
 			nk := len(kept)
 			for i := 0; i < 300; i++ {
 				mk() // further reports built in between (their embedded parts are kept as well)
